@@ -468,9 +468,9 @@ func (g *GenCtx) genPrim(d *Desc, v reflect.Value) {
 	case "accountStatus":
 		v.SetString([]string{"uninit", "frozen", "active", "nonexist"}[g.Rng.Intn(4)])
 	case "accStatusChange":
-		v.SetString([]string{"acst_unchanged", "acst_frozen", "acst_deleted"}[g.Rng.Intn(3)])
+		v.SetString([]string{"acst_unchanged", "acst_frozen", "acst_deleted"}[g.class("accStatusChange", 3)])
 	case "computeSkipReason":
-		v.SetString([]string{"cskip_no_state", "cskip_bad_state", "cskip_no_gas", "cskip_suspended"}[g.Rng.Intn(4)])
+		v.SetString([]string{"cskip_no_state", "cskip_bad_state", "cskip_no_gas", "cskip_suspended"}[g.class("computeSkipReason", 4)])
 	case "vmCellSlice":
 		c := g.RandCell(200, 2, 1)
 		eb := g.Rng.Intn(c.BitSize() + 1)
